@@ -203,19 +203,21 @@ pub fn spec(property: &str, tier: &str) -> Option<CheckSpec> {
 		}
 		"C11" => {
 			let mut sp = s(
-				"wiresim",
+				"wiresim+apisim",
 				"exploration",
-				if quick { 8 } else { 32 },
-				"case = one real chain from which every message type (incl. real segments, header lists, an archive message) is encoded at protocol versions 1, 2, 3, 1000; evaluation = one hostile byte stream delivered to the real Codec over a loopback socket (optionally split once) followed by connection close: truncation at every (sampled) offset, 64/32/16-bit windows at every body offset set to boundary values (0, 1, 2, 0xff, 0xffff, 2^16, 2^32-1, 2^32, 2^64-1), tag/feature bytes swept, random bodies behind a valid header, announced lengths disagreeing with the content, bodies spliced from two messages; decoded values are passed to the stateless checks (validate_read / validate, Segment::validate / validate_with against the archive header, BitmapSegment::into_segment). Oracle: the reader thread never panics, returns within 10 s of EOF, and no single allocation exceeds 16 x the documented per-type limit + 32 x input length + 1 MiB. MerkleProof::from_hex is driven in a forked child (address space capped) with valid, truncated, non-hex, non-ASCII, random and huge-path-length inputs: exit status observed",
-				vec!["release build of the harness (shipped arithmetic: overflow checks off)", "allocation is measured process-wide with a counting global allocator; harness-side buffers are bounded by the input length"],
-				vec!["mutation:truncate", "mutation:field64", "mutation:splice", "merkle-hex:random"],
+				if quick { 10 } else { 40 },
+				"four cases in five (wiresim): one real chain from which every message type (incl. real segments, header lists, an archive message) is encoded at protocol versions 1, 2, 3, 1000; evaluation = one hostile byte stream delivered to the real Codec over a loopback socket (optionally split once) followed by connection close: truncation at every (sampled) offset, 64/32/16-bit windows at every body offset set to boundary values (0, 1, 2, 0xff, 0xffff, 2^16, 2^32-1, 2^32, 2^64-1), count and length fields set to large values with and without truncation, segment identifiers with extreme heights and indices, single bytes set to tiny values, tag/feature bytes swept, random bodies behind a valid header, announced lengths disagreeing with the content, bodies spliced from two messages; decoded values are passed to the stateless checks (validate_read / validate, Segment::validate / validate_with against the archive header, BitmapSegment::into_segment). Oracle: the reader thread never panics, returns within 10 s of EOF, and no single allocation exceeds 2 x the announced (accepted) length + 16 x input length + 256 KiB. Bare 11-byte frame headers of 47 type bytes (all known ones and unused ones) announcing limit+1 .. 2^64-1 bytes go through the Codec and through read_message (handshake path), each in a forked child with a 4 GiB address-space cap: panic, abort, hang and an allocation above 1 MiB are exit statuses. MerkleProof::from_hex is driven in a forked child likewise with valid, truncated, non-hex, non-ASCII, random and huge-path-length inputs. One case in five (apisim): one real chain + real transaction pool + peer store behind the real grin_api Foreign and Owner JSON-RPC dispatch (handle_request, then to_string_pretty, as the v2 handlers do) on a handler thread; every method is sent a valid request built from the chain (must be answered Ok), then envelope mutations (method/params/id/jsonrpc, batches), every node of the params tree replaced by boundary numbers, wrong types, hex strings of odd / short / long / over-long lengths, unknown enum names, dropped and extra keys, huge and deeply nested arrays, and mutated request text that still parses; the Ok replies are mutated the same way and fed to the typed decoders API consumers use (BlockPrintable, OutputPrintable with its Merkle proof from hex, OutputListing, LocatedTxKernel, Tip, Status, PeerData, PoolEntry, Transaction). Oracle: no panic, an answer within 20 s, no single allocation above 64 x document length + 2 x reply length + 4 MiB",
+				vec!["release build of the harness (shipped arithmetic: overflow checks off)", "allocation is measured process-wide with a counting global allocator; harness-side buffers are bounded by the input length", "the HTTP layer (hyper, TLS, basic auth, body size handling) is not run: documents enter at handle_request exactly as parse_body hands them over"],
+				vec!["mutation:truncate", "mutation:field64", "mutation:splice", "merkle-hex:random", "huge_frame_header:codec", "huge_frame_header:read_message", "api-request:hexlen", "api-request:u64max", "api-response-mutation"],
 			);
-			sp.required_probes = vec![];
+			sp.required_probes = ["api_valid:push_transaction", "api_valid:get_unspent_outputs", "api_valid:get_status", "api_mutant_answered_ok", "api_response_mutant_decoded"].iter().map(|s| s.to_string()).collect();
 			sp.real_components = vec![
-				"grin_p2p Codec::read / decode_message / MsgHeaderWrapper::read".into(),
+				"grin_p2p Codec::read / decode_message / MsgHeaderWrapper::read / read_message".into(),
 				"grin_core ser readers for every message body, UntrustedBlock/Header/CompactBlock, TransactionBody::read, Segment/SegmentProof/BitmapSegment readers, MerkleProof::read/from_hex".into(),
+				"grin_api Foreign / Owner with their easy-jsonrpc dispatch, handlers (blocks_api, chain_api, pool_api, transactions_api, peers_api, server_api), printable types and their serde decoders; grin_core / grin_keychain serde helpers (secp_ser, BlindingFactor::from_hex)".into(),
+				"grin_chain::Chain, grin_pool::TransactionPool, grin_p2p::Peers + PeerStore behind the API".into(),
 			];
-			sp.stub_components = vec!["the hostile peer".into()];
+			sp.stub_components = vec!["the hostile peer / API client".into(), "hyper router, TLS and authentication in front of the JSON-RPC handlers".into(), "servers::PoolToChainAdapter (harness BlockChain impl)".into()];
 			Some(sp)
 		}
 		"C09" => {
@@ -1055,7 +1057,13 @@ pub fn run_case(property: &str, tier: &str, seed: u64, case: u64) -> CaseResult 
 	match property {
 		"C09" => crate::crashsim::case(tier, seed, case),
 		"C19" => crate::wiresim::c19_case(tier, seed, case),
-		"C11" => crate::wiresim::c11_case(tier, seed, case),
+		"C11" => {
+			if case % 5 == 4 {
+				crate::apisim::case(tier, seed, case)
+			} else {
+				crate::wiresim::c11_case(tier, seed, case)
+			}
+		}
 		"C14" => crate::poolsim::case(tier, seed, case),
 		"C16" => crate::pibdsim::case(tier, seed, case),
 		"C17" => crate::schedsim::case(tier, seed, case),
